@@ -152,8 +152,9 @@ def make_events(rng, ref):
                 elif typ == 'RI-ins' and n >= 2:
                     i = rng.randrange(0, n - 1)
                     U, D = ex[i], ex[i + 1]
-                    if any(a < D[0] and U[1] < b for a, b in all_exons):
-                        continue        # something annotated inside the intron
+                    if any(a < D[0] and U[1] < b and not (U[1] < a and b < D[0]) for a, b in all_exons):
+                        continue        # an annotated exon overlaps the intron boundary (cassette exons of sibling isoforms strictly
+                        #                 inside the intron are allowed: the event then concerns only isoforms joining U and D directly)
                     alt = ex[:i] + [(U[0], D[1])] + ex[i + 2:]
                     ev = dict(kind='RI', ri=(U[0], D[1]), up=U, down=D, alt=alt, novel_junctions=[], form='retained', retained=(U[0], D[1]))
                 elif typ == 'RI-del' and n >= 1:
